@@ -4,6 +4,9 @@ Space: every DFS-ordered tree with <=N bodies x joint-kind assignment x velocity
   {actjoint (affine bias / affine gain / filter+act / clamped by forcerange / filter+actearly, on hinge, slide,
    ball and free joints), acttendon (same on spatial and fixed tendons), damping, dampingpoly, tendamp
    (polynomial tendon damping), fluidbox, fluidell, all}
+  + synergy dimension `actsyn`: trees x scalar-joint kinds x EVERY subset of >= 3 scalar joints as one fixed tendon driven by
+    velocity-dependent actuators (the moment row then spans serial chains, sibling branches with and without their common
+    ancestor dof, both dofs of one body, and several trees: every shape of "moment support vs. tree-sparse M pattern")
   x integrator {implicitfast, implicit}; two states with non-zero qvel/ctrl/act as a 2-world batch.
 Observed: the matrix MJWarp integrates with:  implicitfast -> deriv_smooth_vel output (M-structure, M - h qDeriv);
   implicit -> the D-structure matrix assembled exactly as forward.implicit does (map_m2d + deriv_rne_vel).
@@ -29,14 +32,17 @@ from mc.props import c02 as _c02
 ID = "C27"
 LEVEL = "exploration"
 RULE = (
-  "enumerate trees(<=N) x joint kinds x feature sets x {implicitfast, implicit}; each scenario compares qDeriv of two states "
+  "enumerate trees(<=N) x joint kinds x feature sets x {implicitfast, implicit}, plus trees x scalar joint kinds x every subset "
+  "of >=3 scalar joints as one actuated fixed tendon (actsyn); each scenario compares qDeriv of two states "
   "(2-world batch) with MuJoCo's analytic qDeriv, with float64 finite differences of MuJoCo's smooth force, and the integrated "
   "qvel; non-trivial = every requested feature has a non-zero finite-difference derivative block in the reference (actuator / "
   "passive / fluid / bias for implicit); distinct = canonical hash of the spec"
 )
 BOUNDS = {
-  "quick": "N<=2: all joint kinds x 8 feature sets x 2 integrators; N=3: all joint kinds x {all} and kinds {weld,hinge,slide,ball,free} x 7 singles",
-  "thorough": "N<=3: all joint kinds x 8 feature sets and all feature pairs x 2 integrators; N=4: kinds {weld,hinge,slide,ball,free} x {all}",
+  "quick": "N<=2: all joint kinds x 8 feature sets x 2 integrators; N=3: all joint kinds x {all} and kinds {weld,hinge,slide,ball,free} x 7 singles; "
+  "actsyn: N=3 kinds {weld,hinge,slide} and N=4 kinds {weld,hinge}, every subset of >=3 scalar joints",
+  "thorough": "N<=3: all joint kinds x 8 feature sets and all feature pairs x 2 integrators; N=4: kinds {weld,hinge,slide,ball,free} x {all}; "
+  "actsyn: N<=3 kinds {weld,hinge,slide,hingeslide} and N=4 kinds {weld,hinge,slide}, every subset of >=3 scalar joints",
 }
 ASSUMPTIONS = [
   "MuJoCo C 3.13 analytic qDeriv (after mj_step) and float64 central differences are the references; class f32dyn relative to "
@@ -44,7 +50,8 @@ ASSUMPTIONS = [
   "finite differences judge MJWarp only where MuJoCo's analytic derivative agrees with them to 1e-4 (reference self-agreement)",
   "actuator alphabet: general actuators with affine gain/bias, filter dynamics (with and without actearly), forcerange clamping; "
   "dcmotor / muscle / user types are not enumerated (C03 covers their forces)",
-  "transmissions: joint (hinge, slide, ball, free) and tendon (spatial, fixed); site/body/slider-crank are not velocity-derivative specific",
+  "transmissions: joint (hinge, slide, ball, free) and tendon (spatial, fixed; fixed tendons over 2 joints and, in actsyn, over every "
+  "subset of >=3 scalar joints); site/body/slider-crank are not velocity-derivative specific",
   "real values from curated alphabets (VERIF_SEED mod 4), structure exhaustive",
   "CPU backend only",
 ]
@@ -69,24 +76,54 @@ def scenarios(tier, seed):
           for fs in fsets:
             specs.append((tuple(parents), tuple(joints), tuple(fs)))
 
+  def add_syn(nmin, nmax, kinds):
+    # one fixed tendon over every subset of >= 3 of the model's scalar joints (indices into _scalar_joints order)
+    for n in range(nmin, nmax + 1):
+      for parents in space.trees(n):
+        for joints in space.joint_assignments(parents, kinds=kinds):
+          ns = len(_scalar_joints(joints))
+          for k in range(3, ns + 1):
+            for sub in itertools.combinations(range(ns), k):
+              specs.append((tuple(parents), tuple(joints), ("actsyn",), tuple(sub)))
+
   if tier == "quick":
     add(1, 2, singles + allon)
     add(3, 3, allon)
     add(3, 3, singles, kinds=_REDUCED)
+    add_syn(3, 3, ("weld", "hinge", "slide"))
+    add_syn(4, 4, ("weld", "hinge"))
   else:
     add(1, 3, singles + pairs + allon)
     add(4, 4, allon, kinds=_REDUCED)
+    add_syn(1, 3, ("weld", "hinge", "slide", "hingeslide"))
+    add_syn(4, 4, ("weld", "hinge", "slide"))
   seen, out = set(), []
   for sp in specs:
     if sp in seen:
       continue
     seen.add(sp)
     for integ in ("implicitfast", "implicit"):
-      out.append(dict(parents=list(sp[0]), joints=list(sp[1]), feats=list(sp[2]), integ=integ, variant=v))
+      scn = dict(parents=list(sp[0]), joints=list(sp[1]), feats=list(sp[2]), integ=integ, variant=v)
+      if len(sp) > 3:
+        scn["syn"] = list(sp[3])
+      out.append(scn)
   return out
 
 
 # ------------------------------------------------------------------------------- model
+
+_SYNCOEF = ("0.8", "-1.7", "1.1", "-0.6", "0.5", "1.3", "-0.9", "0.7")
+
+
+def _scalar_joints(joints):
+  scal = []
+  for i, k in enumerate(joints, 1):
+    if k in ("hinge", "slide"):
+      scal.append(f"j{i}")
+    elif k == "hingeslide":
+      scal += [f"j{i}", f"j{i}b"]
+  return scal
+
 
 _GEAR = {"hinge": "1.3", "slide": "0.8", "ball": "0.7 -0.4 0.5", "free": "0.7 -0.4 0.5 0.3 0.2 -0.6"}
 
@@ -107,18 +144,18 @@ def _act(name, target, t, gear=""):
   return f'<general name="{name}" {target}{g} dyntype="filter" dynprm="0.2" actearly="true" gaintype="affine" gainprm="0.9 0 -0.5"/>'
 
 
-def model_xml(parents, joints, feats, integ, v):
+def model_xml(parents, joints, feats, integ, v, syn=None):
   n = len(parents)
   # armature on every joint keeps M - h*qDeriv well conditioned (velocity feedback gains are O(1), light bodies have M ~ 1e-3)
   decos = ["armature"] + [f for f in ("damping", "dampingpoly") if f in feats]
   ja = _c02._joint_attrs(decos, v)
   world, tens, acts = "", "", ""
-  scal = []
-  for i, k in enumerate(joints, 1):
-    if k in ("hinge", "slide"):
-      scal.append(f"j{i}")
-    elif k == "hingeslide":
-      scal += [f"j{i}", f"j{i}b"]
+  scal = _scalar_joints(joints)
+  if "actsyn" in feats:
+    # synergy tendon: non-zero moment on every joint of the subset `syn`; two velocity-dependent actuators on it
+    tens += '<fixed name="ts">' + "".join(f'<joint joint="{scal[s]}" coef="{_SYNCOEF[p % len(_SYNCOEF)]}"/>' for p, s in enumerate(syn)) + "</fixed>"
+    acts += _act("as0", 'tendon="ts"', v % 5)
+    acts += _act("as1", 'tendon="ts"', (v + 2) % 5)
   if "acttendon" in feats or "tendamp" in feats:
     tattr = f' damping="{_c02._DPOLY[(v + 2) % 4]}"' if "tendamp" in feats else ""
     world = '<site name="sw" pos="0.05 -0.4 0.6" size="0.01"/>'
@@ -213,7 +250,7 @@ def execute(scn):
   from mujoco_warp._src import derivative, forward
 
   v, integ, feats = scn["variant"], scn["integ"], scn["feats"]
-  xml = model_xml(scn["parents"], scn["joints"], feats, integ, v)
+  xml = model_xml(scn["parents"], scn["joints"], feats, integ, v, scn.get("syn"))
   mjm, err = util.try_load(xml)
   if mjm is None:
     return dict(ok=True, nontrivial=False, outcome="rejected_by_compiler", info=err, key=util.sha(scn))
@@ -359,7 +396,7 @@ def execute(scn):
     c.close(f"qvel_after_implicit:w{w}", qv[w], post.qvel, "f32dyn", vkey=f"qvel_after_implicit:coriolis={coriolis}:rot3={rot3}")
 
   need = set()
-  if "actjoint" in feats or "acttendon" in feats:
+  if "actjoint" in feats or "acttendon" in feats or "actsyn" in feats:
     need.add("act")
   if "damping" in feats or "dampingpoly" in feats or "tendamp" in feats:
     need.add("pas")
